@@ -359,6 +359,9 @@ class Interp:
             c = self.CONSTS.get(v[1])
             if c is not None:
                 return c
+            for n, (cv, cty) in self.mir.simple_consts.items():
+                if n == v[1] or v[1].endswith('::' + n) or n.endswith('::' + v[1]):
+                    return self.const_value(cv, cty)
             # a named `const` item of the crate (e.g. a thread_local! key): evaluate its body
             for n, b in self.mir.bodies.items():
                 if b.kind == 'const' and 'promoted[' not in n and (n == v[1] or v[1].endswith('::' + n) or n.endswith('::' + v[1])):
@@ -537,7 +540,7 @@ class Interp:
         raise Unsupported('unop %s on %r' % (op, ty))
 
     def cast(self, kind, v, fromty, toty):
-        if kind.startswith('PointerCoercion') or kind in ('Transmute', 'PtrToPtr', 'Subtype'):
+        if kind.startswith('PointerCoercion') or kind in ('Transmute', 'PtrToPtr', 'Subtype', 'PointerExposeProvenance', 'PointerWithExposedProvenance', 'FnPtrToPtr'):
             return v
         if kind == 'IntToInt':
             tw, ts = INT_TYPES.get(toty, (None, None))
